@@ -15,8 +15,8 @@ import (
 
 type cfg16 struct {
 	ski, id, brand, model, typ, serial string
-	cats                                []api.DeviceCategoryType
-	auto                                bool
+	cats                               []api.DeviceCategoryType
+	auto                               bool
 }
 
 func (c cfg16) coq() string {
@@ -35,9 +35,9 @@ func coqEntry(e *api.MdnsEntry) string {
 // ---- string generators ----
 var runePool = [][]rune{
 	[]rune("abcdefghijklmnopqrstuvwxyzABCDEFGHIJKLMNOPQRSTUVWXYZ0123456789 -_."), // 1 byte
-	[]rune("éüßñøΩДжק"),                                                          // 2 bytes
-	[]rune("€あ中한� ࠀ￿"),                                       // 3 bytes
-	[]rune("😀𝄞\U00010000\U0010FFFF"),                                             // 4 bytes
+	[]rune("éüßñøΩДжק"),              // 2 bytes
+	[]rune("€あ中한� ࠀ￿"),               // 3 bytes
+	[]rune("😀𝄞\U00010000\U0010FFFF"), // 4 bytes
 }
 
 const specials = "=;:"
@@ -211,18 +211,18 @@ func fixedConfigs() []cfg16 {
 	one := []api.DeviceCategoryType{2}
 	return []cfg16{
 		{ski, "shipid", "brand", "model", "EnergyManagementSystem", "12345", one, false},
-		{ski, "shipid", a31 + "é", "model", "type", "12345", one, true},           // 2-byte rune across the limit
-		{ski, "shipid", "brand", a31[:30] + "€", "type", "12345", one, true},      // 3-byte rune across the limit
-		{ski, "shipid", "brand", "model", a31[:29] + "😀", "12345", one, true},     // 4-byte rune across the limit
-		{ski, "shipid", "brand", "model", "type", a31 + "😀", one, true},           // 4-byte rune, 1 byte fits
-		{ski, "id=x", "brand", "model", "type", "12345", one, false},              // '=' in the identifier
-		{ski, "shipid", "bra=nd", "mo=del=", "=type", "ser=ial", one, false},      // '=' in descriptive fields
-		{"ab=cd", "shipid", "brand", "model", "type", "12345", one, false},        // '=' in the SKI
-		{ski, "id;x=y", "brand", "model", "type", "12345", one, false},            // ';' in the identifier
-		{"ab;ENDSHIP", "shipid", "brand", "model", "type", "12345", one, false},   // ';' in the SKI
-		{ski, "shipid", "br;and", ";", "ty:pe", "a:b;c", one, false},              // ';' and ':' in optionals
-		{ski, "shipid", "", "", "", "", nil, false},                               // everything optional absent
-		{ski, "", "", "", "", "", []api.DeviceCategoryType{}, true},               // empty identifier
+		{ski, "shipid", a31 + "é", "model", "type", "12345", one, true},         // 2-byte rune across the limit
+		{ski, "shipid", "brand", a31[:30] + "€", "type", "12345", one, true},    // 3-byte rune across the limit
+		{ski, "shipid", "brand", "model", a31[:29] + "😀", "12345", one, true},   // 4-byte rune across the limit
+		{ski, "shipid", "brand", "model", "type", a31 + "😀", one, true},         // 4-byte rune, 1 byte fits
+		{ski, "id=x", "brand", "model", "type", "12345", one, false},            // '=' in the identifier
+		{ski, "shipid", "bra=nd", "mo=del=", "=type", "ser=ial", one, false},    // '=' in descriptive fields
+		{"ab=cd", "shipid", "brand", "model", "type", "12345", one, false},      // '=' in the SKI
+		{ski, "id;x=y", "brand", "model", "type", "12345", one, false},          // ';' in the identifier
+		{"ab;ENDSHIP", "shipid", "brand", "model", "type", "12345", one, false}, // ';' in the SKI
+		{ski, "shipid", "br;and", ";", "ty:pe", "a:b;c", one, false},            // ';' and ':' in optionals
+		{ski, "shipid", "", "", "", "", nil, false},                             // everything optional absent
+		{ski, "", "", "", "", "", []api.DeviceCategoryType{}, true},             // empty identifier
 		{ski, "shipid", "brand", "model", "type", "12345", []api.DeviceCategoryType{4294967296}, false},
 		{ski, "shipid", "brand", "model", "type", "12345", []api.DeviceCategoryType{1, 4294967295, 0, 8}, false},
 		{ski, "shipid", strings.Repeat("é", 16), strings.Repeat("é", 17), strings.Repeat("€", 11), strings.Repeat("😀", 9), one, false},
